@@ -133,9 +133,9 @@ func init() {
 		ID:        "C12",
 		Technique: "emitted-brace typestate over the template functions (all schemas) + compile-fail witness: the working-tree generator is run as a build step on a schema corpus and its output is type-checked with go/types",
 		DesignRef: "DESIGN.md 3.12, 4 C12",
-		LevelText: "T.brace: every function of the template packages that emits code is abstractly interpreted with state = net braces/parens of the constant text it emits; branch conditions over never-reassigned locals are enumerated as atoms, switch arms are nondeterministic; all paths of a function must agree, loop bodies and root emitters must be balanced - this holds for all schemas, not only the corpus. GEN.*: the generator built from the working tree must answer every corpus schema (kind x shape matrix, 1..5-byte tags, interleaved oneofs, nesting/recursion, cross-package imports, well-known types, name collisions, sparse enums, the schemas embedded in the checked-in files) with sources that type-check (thorough: also GOARCH=386 and the full 12x17 map matrix), an unknown feature with an error, proto2 / unrequested files with no output. The emitted code is only analysed, never run. Not decided: totality for schemas outside the corpus beyond T.*; M/paths= parameter handling is protogen's.",
-		Engines:      E{tmpl.RunBrace, tmpl.RunNames, tmpl.RunKinds, tmpl.RunFlow, tmpl.RunS2},
-		RulePrefixes: []string{"T.brace", "T.names", "T.kinds", "T.flow", "T.anchor", "GEN", "G.model", "G.anchor"},
+		LevelText: "T.brace: every function of the template packages that emits code is abstractly interpreted with state = net braces/parens of the constant text it emits; branch conditions over never-reassigned locals are enumerated as atoms, switch arms are nondeterministic; all paths of a function must agree, loop bodies and root emitters must be balanced - this holds for all schemas, not only the corpus. GEN.*: the generator built from the working tree must answer every corpus schema (kind x shape matrix, 1..5-byte tags, interleaved oneofs, nesting/recursion, cross-package imports, well-known types, name collisions, sparse enums, the schemas embedded in the checked-in files) with sources that type-check (thorough: also GOARCH=386 and the full 12x17 map matrix), an unknown feature with an error, proto2 / unrequested files with no output. The emitted code is only analysed, never run; the codec engines of C01-C04/C06/C14 (SIZE, ENC, DEC, DET, UNK, BND) are applied to everything the working-tree generator emitted, so a template change that breaks a wire-format clause for some kind x shape x tag-width cell of the corpus is reported here as well. Not decided: totality for schemas outside the corpus beyond T.*; M/paths= parameter handling is protogen's.",
+		Engines:      E{tmpl.RunBrace, tmpl.RunNames, tmpl.RunKinds, tmpl.RunFlow, tmpl.RunS2, codec.RunSize, codec.RunEnc, codec.RunDec},
+		RulePrefixes: []string{"T.brace", "T.names", "T.kinds", "T.flow", "T.anchor", "GEN", "G.model", "G.anchor", "SIZE", "ENC", "DEC", "DET", "UNK.default", "BND"},
 		Floors: []core.Floor{
 			{Rule: "T.brace", Min: 60, Why: "emitting template functions"},
 			{Rule: "T.names", Min: 19, Why: "16 methods + 3 structure rules"},
@@ -197,8 +197,8 @@ func init() {
 		Technique: "symbolic walks of the marshal and unmarshal closures to canonical per-field summaries, each compared with the wire spec so that encode and decode forms are mutually inverse per kind",
 		DesignRef: "DESIGN.md 3.2, 3.4, 4 C01",
 		LevelText: "Per field of every generated type: the encoder's payload form and the decoder's read form are the inverse pair the spec prescribes for the kind (varint<->varint accumulated from a zeroed variable of the Go type, zig-zag encode/decode forms, little-endian fixed 4/8, Float bits/frombits so NaN payloads and -0 survive bit-exactly, copy for string/bytes, nested Marshal/Unmarshal through the same options); the decoder has exactly one arm per schema field storing into the Go field mapped to that number, accepting exactly the declared wire type(s); oneof members are emitted unconditionally and decoded as their wrapper; unknown bytes are emitted verbatim and collected verbatim; the encoder's omission guard is the proto3 presence predicate (so a skipped value is the zero value the decoder leaves); marshal's only error return is a nested Marshal error. Not decided: equality of the decoded value for all inputs as an executed comparison (follows from the inverse pairs under A3-A5); UTF-8 validity.",
-		Engines:      E{codec.RunEnc, codec.RunSize, codec.RunDec},
-		RulePrefixes: []string{"ENC", "DEC.form", "DEC.wire", "DEC.cases", "DEC.frame", "DEC.walk", "SIZE.count", "SIZE.walk", "UNK.default", "G.model", "G.anchor", "GEN.build"},
+		Engines:      E{codec.RunEnc, codec.RunSize, codec.RunDec, codec.RunSkip},
+		RulePrefixes: []string{"ENC", "DEC.form", "DEC.wire", "DEC.cases", "DEC.frame", "DEC.walk", "SIZE.count", "SIZE.walk", "UNK.default", "L.skip", "G.model", "G.anchor", "GEN.build"},
 		Floors: []core.Floor{
 			{Rule: "ENC.field", Min: 400, Why: "fields"},
 			{Rule: "DEC.form", Min: 400, Why: "arms"},
@@ -212,8 +212,8 @@ func init() {
 		Technique: "symbolic interpretation of every decode arm (value provenance from zeroed accumulators, store operation, cursor discipline) compared with the decoding rules of the wire spec; option-mapping table for nested decodes",
 		DesignRef: "DESIGN.md 3.4, 3.9, 4 C03",
 		LevelText: "Per arm of every generated decoder: scalars are assigned from a varint accumulated into a zeroed variable (last wins, no residue of an earlier occurrence), repeated fields append, repeated numerics accept the element wire type and the packed form whose loop runs the same element reader until the payload end (so split runs and mixed forms concatenate), oneof members replace the interface value, map entries read key and value per record with defaults from zero-valued variables and store after the whole entry, singular messages decode into the existing value allocated only when nil, nested decodes use options.Unmarshal of the closure's options whose Merge flag is true (OPTS.merge), every other wire type is an error, the cursor ends exactly at the payload end. Concatenation = merge because the loop is a left fold over records. Open findings are reported as KNOWN-FINDING (F5 oneof message members, F6 map default, F16 varint map keys/values). Not decided: equality with the reference decoder on every stream as an executed comparison.",
-		Engines:      E{codec.RunDec, codec.RunOpts},
-		RulePrefixes: []string{"DEC", "OPTS.merge", "OPTS.map", "G.model", "G.anchor", "GEN.build"},
+		Engines:      E{codec.RunDec, codec.RunOpts, codec.RunSkip},
+		RulePrefixes: []string{"DEC", "OPTS.merge", "OPTS.map", "L.skip", "G.model", "G.anchor", "GEN.build"},
 		Floors: []core.Floor{
 			{Rule: "DEC.form", Min: 400, Why: "arms"},
 			{Rule: "DEC.wire", Min: 400, Why: "arms"},
@@ -227,8 +227,8 @@ func init() {
 		Technique: "structural rules on the default arm of every decoder (rewind, Skip, exact slice append under !DiscardUnknown, advance), on marshal/size unknown blocks, on GetUnknown/SetUnknown, and the option mapping of DiscardUnknown",
 		DesignRef: "DESIGN.md 4 C14",
 		LevelText: "For every generated type: the decoder has exactly one arm per schema field (so no known field reaches the default arm and no unknown number is decoded as a field); the default arm rewinds to the record start, measures the record with runtime.Skip (whose per-wire-type advance is decided in C15), appends exactly dAtA[start:start+n] to x.unknownFields iff !options.DiscardUnknown, and advances by n; options come from runtime.UnmarshalInputToOptions which maps the flag and is handed to every nested decode; marshal writes x.unknownFields first into the back-filled buffer (last on the wire) verbatim and size counts len(x.unknownFields); GetUnknown/SetUnknown read and replace exactly that field. Not decided: a known number arriving with a foreign wire type is rejected, not kept as unknown (outside well-typed streams).",
-		Engines:      E{codec.RunDec, codec.RunEnc, codec.RunSize, codec.RunUnkAccessors, codec.RunOpts},
-		RulePrefixes: []string{"UNK", "DEC.cases", "DEC.flags", "DEC.walk", "ENC.unknown", "ENC.walk", "SIZE.unknown", "SIZE.walk", "OPTS.discard", "G.model", "G.anchor", "GEN.build"},
+		Engines:      E{codec.RunDec, codec.RunEnc, codec.RunSize, codec.RunUnkAccessors, codec.RunOpts, codec.RunSkip},
+		RulePrefixes: []string{"UNK", "DEC.cases", "DEC.flags", "DEC.walk", "ENC.unknown", "ENC.order", "ENC.walk", "SIZE.unknown", "SIZE.walk", "OPTS.discard", "L.skip", "G.model", "G.anchor", "GEN.build"},
 		Floors: []core.Floor{
 			{Rule: "UNK.default", Min: 50, Why: "message types"},
 			{Rule: "UNK.accessors", Min: 100, Why: "2 per message type"},
